@@ -3,8 +3,10 @@ package sctp
 // C14 Stream close is ordered after the stream's data; identifiers can be reused.
 
 import (
+	"encoding/binary"
 	"errors"
 	"fmt"
+	"strings"
 	"testing"
 	"time"
 
@@ -371,6 +373,391 @@ func runC14(t *testing.T, x c14Scn, verbose bool) vfCase {
 	return c
 }
 
+
+// ---- a foreign peer resets its streams ----
+//
+// pion sends a reset request in a packet of its own, for the streams of one Close() call,
+// after the data. Other stacks bundle the request with the last DATA chunk (before or after
+// it), list several streams (also ones the receiver never saw), retransmit the request when
+// the answer is slow, and their data may be overtaken by the request. A puppet peer does all
+// that; every incarnation of every stream must deliver exactly its messages and then EOF,
+// every request must eventually be answered "performed" (a retransmission after that:
+// "nothing to do"), and a re-used identifier starts afresh.
+
+type c14FStep struct {
+	K     string `json:"k"` // msg, reset, rereq, release, wait
+	SID   int    `json:"sid,omitempty"`
+	Unord bool   `json:"unord,omitempty"`
+	Size  int    `json:"size,omitempty"`
+	Hold  bool   `json:"hold,omitempty"` // msg: built now (TSN assigned), sent at the next release (overtaken by later packets)
+	SIDs  []int  `json:"sids,omitempty"` // reset: streams listed
+	Lay   int    `json:"lay,omitempty"`  // reset: 0 own packet, 1 bundled after a fresh DATA chunk, 2 before it
+	Rev   bool   `json:"rev,omitempty"`  // release: newest first
+	Ms    int    `json:"ms,omitempty"`
+}
+
+type c14Foreign struct {
+	IL    bool       `json:"il"`
+	TSN   uint32     `json:"tsn"`
+	Steps []c14FStep `json:"steps"`
+}
+
+func genC14Foreign(rt *rapid.T) c14Foreign {
+	x := c14Foreign{IL: rapid.Bool().Draw(rt, "il"), TSN: genTSN(rt, "tsn", 8448)}
+	n := rapid.IntRange(2, 24).Draw(rt, "n")
+	for i := 0; i < n; i++ {
+		var st c14FStep
+		switch rapid.IntRange(0, 9).Draw(rt, "k") {
+		case 0, 1, 2, 3:
+			st = c14FStep{K: "msg", SID: rapid.IntRange(0, 2).Draw(rt, "sid"), Unord: rapid.IntRange(0, 4).Draw(rt, "unord") == 0, Size: rapid.SampledFrom([]int{1, 10, 300, 1100}).Draw(rt, "size"), Hold: rapid.IntRange(0, 2).Draw(rt, "hold") == 0}
+		case 4, 5, 6:
+			st = c14FStep{K: "reset", Lay: rapid.IntRange(0, 2).Draw(rt, "lay")}
+			st.SIDs = rapid.SliceOfNDistinct(rapid.SampledFrom([]int{0, 1, 2, 7}), 1, 3, rapid.ID[int]).Draw(rt, "sids")
+			st.SID = st.SIDs[0]
+		case 7:
+			st = c14FStep{K: "rereq"}
+		case 8:
+			st = c14FStep{K: "release", Rev: rapid.Bool().Draw(rt, "rev")}
+		default:
+			st = c14FStep{K: "wait", Ms: rapid.SampledFrom([]int{1, 15, 250, 1200}).Draw(rt, "ms")}
+		}
+		x.Steps = append(x.Steps, st)
+	}
+	return x
+}
+
+func runC14Foreign(t *testing.T, x c14Foreign, verbose bool) (c vfCase) {
+	var e1 vfE1
+	e1.Cfg[0] = vfSideCfg{IL: x.IL, TSN: 1000, RTOMax: 2000}
+	e1.Cfg[1] = vfSideCfg{IL: x.IL, TSN: x.TSN}
+	overtaken, bundledReq, reused, unknownSID := false, false, false, false
+	pm := vfBubble(t, func() {
+		s := newVfSim(t, &e1, verbose)
+		p := newVfPuppet(s, 1, vfPuppetCfg{IL: x.IL, TSN: x.TSN, ARwnd: 1 << 20})
+		defer func() {
+			if c.Verdict != "" || verbose {
+				c.Detail = s.history(300)
+			}
+			s.closeAll()
+		}()
+		if !p.connectAsServer(30 * time.Second) {
+			c.fail("puppet-handshake", "victim did not establish with the puppet")
+			return
+		}
+		s.afterEstablished()
+		type msg struct {
+			hash  uint64
+			n     int
+			unord bool
+		}
+		type inc struct {
+			msgs   []msg
+			reset  bool // a reset request covering it was sent
+			seq    [2]uint32
+			closed bool // reset answered "performed": the next message starts a new incarnation
+		}
+		incs := map[int][]*inc{}
+		cur := func(sid int) *inc {
+			l := incs[sid]
+			if len(l) == 0 || l[len(l)-1].closed {
+				if len(l) > 0 {
+					reused = true
+				}
+				l = append(l, &inc{})
+				incs[sid] = l
+			}
+			return l[len(l)-1]
+		}
+		type req struct {
+			seq   uint32
+			sids  []int
+			last  uint32
+			done  bool
+			raw   wChunk
+			incs  []*inc
+			sentN int
+		}
+		var reqs []*req
+		reqSeq := x.TSN // RFC 6525: the first request number is the initial TSN
+		var held [][]byte
+		id := 0
+		mkData := func(sid int, unord bool, size int) wChunk {
+			in := cur(sid)
+			k := 0
+			if unord {
+				k = 1
+			}
+			pl := vfPayload(6000+id, size)
+			id++
+			ch := p.data(uint16(sid), in.seq[k], unord, pl)
+			in.seq[k]++
+			in.msgs = append(in.msgs, msg{vfHash64(pl), len(pl), unord})
+			return ch
+		}
+		pack := func(chs ...wChunk) []byte {
+			for i := range chs {
+				chs[i].encodeBody()
+			}
+			return wEncode(&wPacket{Src: 5000, Dst: 5000, VTag: p.peerTag, Chunks: chs}, 0)
+		}
+		mkReq := func(r *req) wChunk {
+			v := make([]byte, 12+2*len(r.sids))
+			binary.BigEndian.PutUint32(v[0:], r.seq)
+			binary.BigEndian.PutUint32(v[4:], 1000-1) // (response sequence number: no request of the victim was seen)
+			binary.BigEndian.PutUint32(v[8:], r.last)
+			for i, sid := range r.sids {
+				binary.BigEndian.PutUint16(v[12+2*i:], uint16(sid))
+			}
+			return wChunk{Type: wtRECONFIG, Params: []wTLV{{Type: 13, Val: v}}}
+		}
+		badResult := ""
+		p.onPacket = func(pk *wPacket) {
+			for i := range pk.Chunks {
+				ch := &pk.Chunks[i]
+				if ch.Type != wtRECONFIG {
+					continue
+				}
+				for _, par := range ch.Params {
+					if par.Type != 16 || len(par.Val) < 8 {
+						continue
+					}
+					rs, res := binary.BigEndian.Uint32(par.Val[0:]), binary.BigEndian.Uint32(par.Val[4:])
+					for _, r := range reqs {
+						if r.seq != rs {
+							continue
+						}
+						switch res {
+						case 1: // performed
+							r.done = true
+							for _, in := range r.incs {
+								in.closed = true
+							}
+						case 0: // nothing to do: fine for a retransmission of a performed request
+							if !r.done && r.sentN < 2 {
+								// a first transmission answered "nothing to do": only right if none of its
+								// streams ever carried data (the receiver has nothing to reset)
+								for _, in := range r.incs {
+									if len(in.msgs) > 0 {
+										badResult = fmt.Sprintf("request %d for streams %v (with data) answered 'nothing to do' at its first transmission", r.seq, r.sids)
+									}
+								}
+								r.done = true
+								for _, in := range r.incs {
+									in.closed = true
+								}
+							}
+						case 6: // in progress
+						default:
+							badResult = fmt.Sprintf("request %d for streams %v answered with result %d", r.seq, r.sids, res)
+						}
+					}
+				}
+			}
+		}
+		for _, st := range x.Steps {
+			switch st.K {
+			case "wait":
+				s.o.settle(time.Duration(st.Ms) * time.Millisecond)
+			case "msg":
+				in := cur(st.SID)
+				if in.reset {
+					continue // no data on a stream whose reset is pending
+				}
+				raw := pack(mkData(st.SID, st.Unord, st.Size))
+				if st.Hold {
+					held = append(held, raw)
+				} else {
+					p.sendRaw(raw)
+				}
+			case "release":
+				if st.Rev {
+					for i := len(held) - 1; i >= 0; i-- {
+						p.sendRaw(held[i])
+					}
+				} else {
+					for _, h := range held {
+						p.sendRaw(h)
+					}
+				}
+				held = nil
+			case "reset":
+				// one request in flight at a time (RFC 6525 5.1.1)
+				busy := false
+				for _, r := range reqs {
+					if !r.done {
+						busy = true
+					}
+				}
+				if busy {
+					continue
+				}
+				r := &req{seq: reqSeq, sids: st.SIDs}
+				reqSeq++
+				var extra []wChunk
+				if st.Lay != 0 {
+					in := cur(st.SID)
+					if !in.reset {
+						extra = append(extra, mkData(st.SID, false, 20))
+						bundledReq = true
+					}
+				}
+				for _, sid := range st.SIDs {
+					if len(incs[sid]) == 0 {
+						unknownSID = true
+					}
+					in := cur(sid)
+					in.reset = true
+					r.incs = append(r.incs, in)
+				}
+				r.last = p.nextTSN - 1
+				if len(held) > 0 {
+					overtaken = true
+				}
+				r.raw = mkReq(r)
+				switch {
+				case len(extra) == 0:
+					p.sendRaw(pack(r.raw))
+				case st.Lay == 1:
+					p.sendRaw(pack(extra[0], r.raw))
+				default:
+					p.sendRaw(pack(r.raw, extra[0]))
+				}
+				r.sentN = 1
+				reqs = append(reqs, r)
+			case "rereq":
+				if len(reqs) > 0 {
+					r := reqs[len(reqs)-1]
+					r.sentN++
+					p.sendRaw(pack(r.raw))
+				}
+			}
+			s.o.settle(0)
+		}
+		// everything held is released; unanswered requests are retransmitted every second, as a
+		// real peer's reconfiguration timer does
+		for _, h := range held {
+			p.sendRaw(h)
+		}
+		end := time.Now().Add(30 * time.Second)
+		for time.Now().Before(end) {
+			pending := false
+			for _, r := range reqs {
+				if !r.done {
+					pending = true
+					r.sentN++
+					p.sendRaw(pack(r.raw))
+				}
+			}
+			s.o.settle(time.Second)
+			if !pending {
+				break
+			}
+		}
+		if badResult != "" {
+			c.fail("reset-refused", "%s", badResult)
+			return
+		}
+		for _, r := range reqs {
+			if !r.done {
+				c.fail("reset-incomplete", "reset request %d for streams %v (sender's last TSN %d) was never answered 'performed' although all data up to that TSN was delivered and the request was retransmitted every second for 30 s", r.seq, r.sids, r.last)
+				return
+			}
+		}
+		s.o.settle(time.Second)
+		// reads per incarnation
+		s.mu.Lock()
+		reads := append([]vfReadRec(nil), s.reads...)
+		s.mu.Unlock()
+		for sid, l := range incs {
+			g := -1
+			for _, in := range l {
+				if len(in.msgs) == 0 {
+					continue // the receiver never saw this incarnation: it has no stream object for it
+				}
+				g++
+				var rs []vfReadRec
+				for _, r := range reads {
+					if r.Side == 0 && int(r.SID) == sid && r.Gen == g {
+						rs = append(rs, r)
+					}
+				}
+				pool := map[uint64]int{}
+				var wo []msg
+				for _, m := range in.msgs {
+					if m.unord {
+						pool[m.hash]++
+					} else {
+						wo = append(wo, m)
+					}
+				}
+				oi, eof := 0, false
+				for _, r := range rs {
+					if r.Err != "" {
+						eof = true
+						if !strings.Contains(r.Err, "EOF") {
+							c.fail("reset-read-error", "stream %d incarnation %d: reader ended with %q, expected EOF", sid, g, r.Err)
+							return
+						}
+						continue
+					}
+					if eof {
+						c.fail("data-after-eof", "stream %d incarnation %d: a message was read after EOF", sid, g)
+						return
+					}
+					if pool[r.Hash] > 0 {
+						pool[r.Hash]--
+					} else if oi < len(wo) && wo[oi].hash == r.Hash {
+						oi++
+					} else {
+						c.fail("foreign-message-wrong", "stream %d incarnation %d: read a message of %d bytes that is not the next one the peer sent in this incarnation (ordered %d of %d read so far)", sid, g, r.N, oi, len(wo))
+						return
+					}
+				}
+				left := len(wo) - oi
+				for _, v := range pool {
+					left += v
+				}
+				if left > 0 {
+					sig := "message-lost-at-reset"
+					if !in.reset {
+						sig = "valid-data-not-delivered"
+					} else if eof {
+						sig = "eof-before-data"
+					}
+					c.fail(sig, "stream %d incarnation %d: %d of %d messages sent by the peer were never read (reset=%v eof=%v)", sid, g, left, len(in.msgs), in.reset, eof)
+					return
+				}
+				if in.reset && len(in.msgs) > 0 && !eof {
+					c.fail("no-eof", "stream %d incarnation %d: the peer's reset was answered 'performed' but the reader never saw EOF", sid, g)
+					return
+				}
+				if !in.reset && eof {
+					c.fail("eof-without-reset", "stream %d incarnation %d: reader saw EOF although the peer never reset the stream", sid, g)
+					return
+				}
+			}
+		}
+	})
+	if pm != "" && c.Verdict == "" {
+		c.fail("bubble-panic", "bubble: %s", pm)
+	}
+	if overtaken {
+		c.class("request-overtakes-data")
+	}
+	if bundledReq {
+		c.class("request-bundled-with-data")
+	}
+	if reused {
+		c.class("identifier-reused")
+	}
+	if unknownSID {
+		c.class("request-lists-unknown-stream")
+	}
+	c.Nontrivial = overtaken || bundledReq || reused
+	return c
+}
+
 func TestVF_C14(t *testing.T) {
 	vfExplore(t, "C14", "close-reopen", vfN(1600, 40000), genC14, func(x c14Scn) vfCase { return runC14(t, x, vfEnv.Replay != "") })
+	vfExplore(t, "C14", "foreign-reset", vfN(1600, 40000), genC14Foreign, func(x c14Foreign) vfCase { return runC14Foreign(t, x, vfEnv.Replay != "") })
 }
